@@ -70,10 +70,25 @@ def run_kani(crate_dir: str, harness_filters: Optional[List[str]], jobs: int, ti
     return parse_terse(out), out, time.time() - t0
 
 
+LAST_BAA_GEN = None
+
+
+def make_baa_replay_crate(dest: str, repo: str, gen_args: dict, harness: str) -> str:
+    """a crate that contains ONE kernel harness (and the replay shim), for `cargo test --cfg verif_replay` under the repo toolchain"""
+    sys.path.insert(0, os.path.join(VERIF, "kl"))
+    import gen_baa
+    shutil.copytree(os.path.join(VERIF, "kl", "baa_kernels"), dest, dirs_exist_ok=True)
+    shutil.copy(os.path.join(repo, "Cargo.lock"), os.path.join(dest, "Cargo.lock"))
+    usage = {k: (v[0], v[1]) for k, v in (gen_args.get("usage") or {}).items()}
+    text, names = gen_baa.gen(gen_args["widths"], gen_args.get("cheap", []), gen_args.get("max_total", 128), usage, only_names={harness})
+    open(os.path.join(dest, "src", "lib.rs"), "w").write(text)
+    return dest
+
+
 # ------------------------------------------------------------------------------------------------ baa kernels
 QUICK_WIDTHS = [1, 8, 64]
 QUICK_CHEAP = [65, 128]          # comparisons, bitwise ops and value tests only (the multi-word code paths)
-THOROUGH_WIDTHS = [1, 2, 7, 8, 31, 32, 33, 63, 64, 65, 127, 128]
+THOROUGH_WIDTHS = [1, 2, 7, 8, 31, 32, 33, 63, 64, 65, 128]
 
 
 def run_baa_kernels(repo: str, scratch: str, tier: str, only: Optional[List[str]] = None, widths: Optional[List[int]] = None):
@@ -105,23 +120,54 @@ def run_baa_kernels(repo: str, scratch: str, tier: str, only: Optional[List[str]
     if skipped:
         # drop the harnesses of unused operations from the generated crate (exact-name filters would be too many)
         for op in skipped:
-            text = re.sub(r"    #\[kani::proof\]\n    #\[kani::unwind\(4\)\]\n    fn k_" + re.escape(op) + r"_w\d+\(\) \{\n.*?\n    \}\n", "", text, flags=re.S)
+            text = re.sub(r"    #\[cfg_attr\(kani, kani::proof\)\]\n    #\[cfg_attr\(kani, kani::unwind\(4\)\)\]\n    fn k_" + re.escape(op) + r"_w\d+\(\) \{\n.*?\n    \}\n", "", text, flags=re.S)
         open(os.path.join(crate, "src", "lib.rs"), "w").write(text)
-    jobs = int(os.environ.get("VERIF_KANI_JOBS", "10" if tier == "quick" else "7"))
-    res, raw, dt = run_kani(crate, only, jobs=jobs, timeout_s=1500 if tier == "quick" else 14000)
-    # second pass: harnesses the back end gave up on (memory / time under parallel load) are re-run two at a time with a large budget
+    # multi-word concat / shift / extension harnesses need minutes and >10 GB each: they run in a pass of their own, three at a time
+    def heavy(n):
+        m = re.match(r"k_(concat)_w(\d+)_w(\d+)$", n) or re.match(r"k_(zero_extend|sign_extend)_w(\d+)_by(\d+)$", n)
+        if m:
+            return int(m.group(2)) + int(m.group(3)) > 64
+        m = re.match(r"k_(shift_left|shift_right|arithmetic_shift_right)_w(\d+)$", n)
+        return bool(m) and int(m.group(2)) > 64
     def short(k):
         return k.split("::")[-1]
+    sel = [n for n in names if not only or any(f in n for f in only)]
+    light = [n for n in sel if not heavy(n)]
+    heavies = [n for n in sel if heavy(n)]
+    jobs = int(os.environ.get("VERIF_KANI_JOBS", "10" if tier == "quick" else "8"))
+    res, raw, dt = {}, "", 0.0
+    passes = []
+    lib = os.path.join(crate, "src", "lib.rs")
+    full_text = open(lib).read()
+    def only_harnesses(keep):
+        """lib.rs with the harness functions not in `keep` removed"""
+        keep = set(keep)
+        def repl(m):
+            return m.group(0) if m.group(1) in keep else ""
+        return re.sub(r"    #\[cfg_attr\(kani, kani::proof\)\]\n    #\[cfg_attr\(kani, kani::unwind\(4\)\)\]\n    fn (k_\w+)\(\) \{\n.*?\n    \}\n", repl, full_text, flags=re.S)
+    if light:
+        open(lib, "w").write(only_harnesses(light))
+        r1, raw1, dt1 = run_kani(crate, None, jobs=jobs, timeout_s=1500 if tier == "quick" else 7000)
+        res.update({k: v for k, v in r1.items() if short(k) in light}); raw += raw1; dt += dt1
+        passes.append({"pass": "light", "harnesses": len(light), "jobs": jobs, "wall_s": round(dt1, 1)})
+    if heavies:
+        open(lib, "w").write(only_harnesses(heavies))
+        r2, raw2, dt2 = run_kani(crate, None, jobs=3, timeout_s=14000, mem_kb=19000000)
+        res.update({k: v for k, v in r2.items() if short(k) in heavies}); raw += raw2; dt += dt2
+        passes.append({"pass": "heavy", "harnesses": len(heavies), "jobs": 3, "wall_s": round(dt2, 1)})
+    open(lib, "w").write(full_text)
+    # last pass: harnesses the back end gave up on (memory / time under parallel load), two at a time with a large budget
     got = {short(k): v for k, v in res.items()}
-    again = [n for n in names if (not only or any(f in n for f in only)) and (got.get(n) is None or got[n]["status"] in (None, "TOOL"))]
+    again = [n for n in sel if got.get(n) is None or got[n]["status"] in (None, "TOOL")]
     second_pass = []
-    if again and len(again) <= 60:
-        res2, raw2, dt2 = run_kani(crate, again, jobs=2, timeout_s=3000 if tier == "quick" else 14000, mem_kb=28000000, extra=["--exact"] if False else None)
+    if again and len(again) <= 24:
+        res2, raw2, dt2 = run_kani(crate, again, jobs=2, timeout_s=3000 if tier == "quick" else 9000, mem_kb=28000000)
         dt += dt2
         for k, v in res2.items():
             if short(k) in again and v["status"] not in (None, "TOOL"):
                 res[k] = v
                 second_pass.append(short(k))
+        passes.append({"pass": "retry", "harnesses": len(again), "jobs": 2, "wall_s": round(dt2, 1)})
     obls = []
     for n in names:
         if only and not any(f in n for f in only):
@@ -149,7 +195,9 @@ def run_baa_kernels(repo: str, scratch: str, tier: str, only: Optional[List[str]
                 obls.append(Obligation(oid, "KL", "baa_kernels", n, "failed", "kani/cbmc+cadical", r["time_s"] or 0.0,
                                        detail={"errors": [{"message": x} for x in fc] or [{"message": "Kani: VERIFICATION FAILED"}]}, kind=kind,
                                        src="baa (dependency pinned by /repo/Cargo.lock)"))
-    info = {"unit": "baa_kernels", "engine": "KL", "second_pass": second_pass, "arm_bodies_used": {k: v[1] for k, v in usage.items()}, "widths": widths, "cheap_only_widths": cheap, "baa_ops_not_called_by_patronus": skipped, "harnesses": len(names), "wall_s": round(dt, 1),
+    global LAST_BAA_GEN
+    LAST_BAA_GEN = {"widths": list(widths), "cheap": list(cheap), "max_total": 64 if tier == "quick" else 128, "usage": {k: list(v) for k, v in usage.items()}}
+    info = {"unit": "baa_kernels", "engine": "KL", "second_pass": second_pass, "passes": passes, "arm_bodies_used": {k: v[1] for k, v in usage.items()}, "widths": widths, "cheap_only_widths": cheap, "baa_ops_not_called_by_patronus": skipped, "harnesses": len(names), "wall_s": round(dt, 1),
             "checker_cmd": f"cargo kani -j N --output-format terse   (crate generated by kl/gen_baa.py, widths {widths})",
             "bound": f"complete over all operand values at each width in {widths}; mul above 16 bits only against 8 stated second operands (bounded)"}
     return obls, info, crate
